@@ -883,6 +883,10 @@ pub fn setup(case: &Case, log: &Arc<Mutex<RunLog>>) -> (Env, Arc<Shared>) {
     Some(ConnKind::RefCount) => src.ref_count().observable(),
     Some(ConnKind::Replay) => src.replay().observable(),
   };
+  let root = match (&case.conn, case.conn_take) {
+    (Some(_), Some(n)) => root.take(n),
+    _ => root,
+  };
   let sh = Arc::new(Shared {
     publish: Mutex::new(publish),
     connection: Mutex::new(None),
